@@ -57,33 +57,27 @@ Definition table_has (t : table) (l : list (str * ent)) : bool :=
   forallb (fun kv => match assoc_get (fst kv) t with Some e => ent_eqb e (snd kv) | None => false end) l.
 Definition find_nested (M : module) (path : list str) : option nscope :=
   find (fun Sc => list_eqb str_eqb (s_path Sc) path) (m_nested M).
-(* procedures contained in a module share its all_types / all_vars / all_absinterfaces dictionaries
-   (C07): for a module with nested scopes these three are compared as lower bounds *)
-Definition shared_with_nested (M : module) (c : cls) : bool :=
-  match m_nested M, c with
-  | [], _ => false
-  | _, CProc => false
-  | _, _ => true
-  end.
-(* identifiers that nested scopes put into the dictionaries they share with the module (their
-   imports, model and Spec, and their local declarations): an entry of the module under such a
-   name may have been replaced (C07), so the lower bound skips them *)
-Definition leak_names (c : cls) (g : graph) (order : list str) (M : module) : list str :=
-  flat_map (fun Sc => map fst (nested_imports_model c g order M Sc) ++ map fst (nested_imports c g M Sc)
-                      ++ map d_name (s_decls Sc)) (m_nested M).
-Definition unleaked (c : cls) (g : graph) (order : list str) (M : module) (l : list (str * ent)) :=
-  filter (fun kv => negb (str_in (fst kv) (leak_names c g order M))) l.
-(* the same for a nested scope: names that scopes which are not its hosts put into the shared
-   dictionaries (all_procs is a copy per scope, so class CProc is not affected) *)
-Definition foreign_names (c : cls) (g : graph) (order : list str) (M : module) (Sc : nscope) : list str :=
-  match c with
-  | CProc => []
-  | _ => flat_map (fun H => map fst (nested_imports_model c g order M H) ++ map fst (nested_imports c g M H)
-                           ++ map d_name (s_decls H))
-                  (filter (fun H => negb (prefix_b (s_path H) (s_path Sc))) (m_nested M))
-  end.
-Definition unforeign (c : cls) (g : graph) (order : list str) (M : module) (Sc : nscope) (l : list (str * ent)) :=
-  filter (fun kv => negb (str_in (fst kv) (foreign_names c g order M Sc))) l.
+(* Since /repo 3f6f480 a scope's dictionaries are copies of its host's (C07): nothing leaks from a
+   nested scope into the module or into a sibling scope, so the module's dictionaries are compared
+   exactly whatever it contains, and of a nested scope's dictionary the use-associated part (the
+   entries whose entity is defined in another module) is compared exactly too.  The helpers below
+   are kept as identities so that the judge reads as before. *)
+Definition shared_with_nested (M : module) (c : cls) : bool := false.
+Definition leak_names (c : cls) (g : graph) (order : list str) (M : module) : list str := [].
+Definition unleaked (c : cls) (g : graph) (order : list str) (M : module) (l : list (str * ent)) := l.
+Definition foreign_names (c : cls) (g : graph) (order : list str) (M : module) (Sc : nscope) : list str := [].
+Definition unforeign (c : cls) (g : graph) (order : list str) (M : module) (Sc : nscope) (l : list (str * ent)) := l.
+(* every entry of the dictionary t whose entity belongs to another module than M is in l (or in l') *)
+Definition foreign_within (M : module) (t : table) (l l' : list (str * ent)) : bool :=
+  forallb (fun kv => str_eqb (fst (snd kv)) (m_name M) || in_b (fst kv) (snd kv) l || in_b (fst kv) (snd kv) l') t.
+(* what a nested scope may hold at most by use association or from its module: its own imports,
+   its hosts' and the module's scope (an interface body reaches its host only through IMPORT, which
+   FORD always grants; the Spec's lower bound does not demand it, the upper bound allows it) *)
+Definition nested_upper_spec (c : cls) (g : graph) (M : module) (Sc : nscope) : list (str * ent) :=
+  scope c g M ++ flat_map (nested_imports c g M) (hosts M Sc).
+(* a reference the lists do not resolve may only denote an entity local to the module *)
+Definition local_or_none (M : module) (e : option ent) : bool :=
+  match e with None => true | Some x => str_eqb (fst x) (m_name M) end.
 Definition lookup (n : str) (l : list (str * ent)) : option ent :=
   match find (fun kv => str_eqb (fst kv) n) l with Some kv => Some (snd kv) | None => None end.
 
@@ -111,8 +105,10 @@ Definition model_ok (g : graph) (r : run) : bool :=
                                 | Some Sc =>
                                   (* with clashing identifiers the dictionary holds one of them: no claim *)
                                   negb (functional_b (nested_lower_model c g (r_order r) M Sc))
-                                  || table_has (nth_tab (q_all q) (cls_idx c))
-                                               (unforeign c g (r_order r) M Sc (nested_lower_model c g (r_order r) M Sc))
+                                  || (table_has (nth_tab (q_all q) (cls_idx c))
+                                                (unforeign c g (r_order r) M Sc (nested_lower_model c g (r_order r) M Sc))
+                                      && foreign_within M (nth_tab (q_all q) (cls_idx c))
+                                                        (nested_lower_model c g (r_order r) M Sc) [])
                                 end
                               end) (r_nested r)
          && forallb (fun f => negb (cls_eqb (f_cls f) c) ||
@@ -133,7 +129,7 @@ Definition model_ok (g : graph) (r : run) : bool :=
                                                                   (nested_lower_model c g (r_order r) M Sc)) with
                                          | Some e => negb (functional_b (nested_lower_model c g (r_order r) M Sc))
                                                      || opt_eqb ent_eqb (Some e) (f_ent f)
-                                         | None => true     (* may still resolve through C07's leaks *)
+                                         | None => local_or_none M (f_ent f)
                                          end
                                        end
                                 end
@@ -169,8 +165,9 @@ Definition spec_ok (g : graph) (r : run) : bool :=
                               match find_nested M (q_path q) with
                               | None => false
                               | Some Sc => negb (nested_clear g M Sc)
-                                          || table_has (nth_tab (q_all q) (cls_idx c))
-                                                       (unforeign c g (r_order r) M Sc (nested_lower_spec c g M Sc))
+                                          || (table_has (nth_tab (q_all q) (cls_idx c))
+                                                        (unforeign c g (r_order r) M Sc (nested_lower_spec c g M Sc))
+                                              && foreign_within M (nth_tab (q_all q) (cls_idx c)) (nested_upper_spec c g M Sc) [])
                               end
                             end) (r_nested r)
        && forallb (fun f => negb (cls_eqb (f_cls f) c) ||
@@ -195,7 +192,11 @@ Definition spec_ok (g : graph) (r : run) : bool :=
                                        negb (nested_clear g M Sc) ||
                                        match lookup (f_id f) (unforeign c g (r_order r) M Sc (nested_lower_spec c g M Sc)) with
                                        | Some e => opt_eqb ent_eqb (Some e) (f_ent f)
-                                       | None => true
+                                       | None => local_or_none M (f_ent f)
+                                                 || match f_ent f with
+                                                    | Some e => in_b (f_id f) e (nested_upper_spec c g M Sc)
+                                                    | None => false
+                                                    end
                                        end
                                      end
                               end
@@ -239,9 +240,11 @@ Definition spec_ok_x (g : graph) (r : run) : bool :=
                               | None => false
                               | Some Sc => negb (nested_clear g M Sc)
                                           || negb (functional_b (nested_lower_model c g (r_order r) M Sc))
-                                          || table_has_x (nth_tab (q_all q) (cls_idx c))
-                                                         (unforeign c g (r_order r) M Sc (nested_lower_model c g (r_order r) M Sc))
-                                                         (unforeign c g (r_order r) M Sc (nested_lower_spec c g M Sc))
+                                          || (table_has_x (nth_tab (q_all q) (cls_idx c))
+                                                          (unforeign c g (r_order r) M Sc (nested_lower_model c g (r_order r) M Sc))
+                                                          (unforeign c g (r_order r) M Sc (nested_lower_spec c g M Sc))
+                                              && foreign_within M (nth_tab (q_all q) (cls_idx c)) (nested_upper_spec c g M Sc)
+                                                                (nested_lower_model c g (r_order r) M Sc))
                               end
                             end) (r_nested r)
        && forallb (fun f => negb (cls_eqb (f_cls f) c) ||
@@ -271,7 +274,16 @@ Definition spec_ok_x (g : graph) (r : run) : bool :=
                                             negb (opt_eqb ent_eqb (lookup (f_id f) (unforeign c g (r_order r) M Sc
                                                                             (nested_lower_model c g (r_order r) M Sc))) (Some e))
                                             || opt_eqb ent_eqb (Some e) (f_ent f)
-                                          | None => true
+                                          | None =>
+                                            local_or_none M (f_ent f)
+                                            || match f_ent f with
+                                               | Some e => in_b (f_id f) e (nested_upper_spec c g M Sc)
+                                               | None => false
+                                               end
+                                            || match lookup (f_id f) (nested_lower_model c g (r_order r) M Sc) with
+                                               | Some _ => true      (* the model resolves it: a recorded deviation *)
+                                               | None => false
+                                               end
                                           end
                                      end
                               end
